@@ -191,6 +191,19 @@ fn judge_all(cases: &[Case]) -> Result<(), String> {
             all.entry(i).or_default().extend(e);
         }
     }
+    // leave the judged crates empty so that a later warm-up or run starts from a compiling workspace
+    for k in 0..16 {
+        let d = format!("{}/rustcheck/chk{k:02}/src", verif_dir());
+        if let Ok(rd) = std::fs::read_dir(&d) {
+            for e in rd.flatten() {
+                let n = e.file_name().to_string_lossy().to_string();
+                if n.starts_with('c') && n.ends_with(".rs") {
+                    let _ = std::fs::remove_file(e.path());
+                }
+            }
+        }
+        let _ = std::fs::write(format!("{d}/lib.rs"), "// generated by the C01 check\n");
+    }
     for (i, _) in &batch {
         verdicts[*i].errors = Some(all.get(i).cloned().unwrap_or_default());
     }
